@@ -48,6 +48,12 @@ class C07Episode(Episode):
         self.world.kernel.on_spawn = self.on_spawn
         self.spec = dict((wc.get('marker', wc['name']), wc)
                          for wc in self.cfg['watchers'])
+        # workers whose preexec_fn touches descriptors (stdin_socket: the
+        # socket is dup2()ed onto 0) get their table from a really forked
+        # child that ran it
+        self.world.kernel.preexec_filter = lambda p: bool(
+            (self.spec.get(p.marker) or {}).get('opts', {}).get(
+                'stdin_socket'))
         self.generations = {}
         self.on_quiet.append(C07Episode.check_quiet)
 
@@ -76,8 +82,24 @@ class C07Episode(Episode):
         self.probes['spawns_checked'] += 1
         table = p.fdtable
         argv = p.argv if isinstance(p.argv, (list, tuple)) else [p.argv]
+        sname = wc['opts'].get('stdin_socket')
+        if sname:
+            rec = self.socks.get(sname.lower())
+            self.probes['stdin_socket_checked'] += 1
+            if table.get('preexec_error'):
+                self.viol('preexec_failed', 'worker %d of %s: preexec_fn '
+                          'raised %s' % (p.pid, wc['name'],
+                                         table['preexec_error']),
+                          once=p.marker)
+            elif rec is not None and 'ino' in rec and \
+                    (table.get(0) or (None, None))[:2] != rec['ino']:
+                self.viol('stdin_is_not_the_socket',
+                          'worker %d of %s: stdin_socket = %s, descriptor 0 '
+                          'of the child is not that socket' %
+                          (p.pid, wc['name'], sname), once=p.marker)
         if not wc['opts'].get('use_sockets'):
-            extra = sorted(fd for fd in table if fd not in (0, 1, 2))
+            extra = sorted(fd for fd in table if isinstance(fd, int) and
+                           fd not in (0, 1, 2))
             if extra:
                 self.viol('descriptor_inherited_without_use_sockets',
                           'worker %d of %s (no use_sockets) would inherit '
@@ -102,7 +124,8 @@ class C07Episode(Episode):
                     self.viol('socket_fd_not_inherited',
                               'worker %d of %s: descriptor %d given for '
                               'socket %s is not in the child\'s table %s'
-                              % (p.pid, wc['name'], n, name, sorted(table)),
+                              % (p.pid, wc['name'], n, name,
+                                 sorted(k for k in table if isinstance(k, int))),
                               once=p.marker)
                 elif (ent[0], ent[1]) != rec['ino'] or \
                         not stat.S_ISSOCK(ent[2]):
@@ -243,6 +266,10 @@ class C07(Prop):
                 # the socket as the worker's stdin (inetd style): with or
                 # without use_sockets, nothing else may come along
                 wc['opts']['stdin_socket'] = rng.choice(names)
+                if use and rng.random() < 0.5:
+                    # ... and referred to on the command line as well
+                    n = wc['opts']['stdin_socket']
+                    wc['cmd'] += ' --fd-%s=$(circus.sockets.%s)' % (n, n)
         n = rng.choice([2, 4, 6, 8]) if tier == 'quick' else \
             rng.choice([6, 10, 16, 24])
         ops = gen.gen_history(rng, cfg, n, self.REQS, None, quiet_p=0.6)
